@@ -1,6 +1,8 @@
 package props
 
 import (
+	"verifmc/peer"
+	"sync"
 	"bytes"
 	"fmt"
 	"io"
@@ -481,16 +483,102 @@ func c08Coverage() *explore.Scenario {
 }
 
 func c08Scenarios(thorough bool) []*explore.Scenario {
-	return []*explore.Scenario{c08Codec(), c08Coverage()}
+	return []*explore.Scenario{c08Codec(), c08Coverage(), c08PSKLifecycle()}
 }
 
 func init() {
 	register(&Prop{ID: "C08", Level: "exploration", Variant: "A", Scenarios: c08Scenarios,
 		Run: func(c *explore.Check, thorough bool) {
-			c.Rule = "every built-in extension type x 1-7 in-limit field-value variants (empty/singleton/multi/boundary) x every buffer size 0..Len()+16: Len()==bytes written, header length, strict per-type grammar, ErrShortBuffer with 0 bytes for every shorter buffer, canary beyond Len(); for Writer types Write(Read()) then Read compared modulo exactly the documented normalisations; all 65536 wire codes probed through ExtensionFromID for table coverage. non-trivial/distinct = value variant"
+			c.Rule = "every built-in extension type x 1-7 in-limit field-value variants (empty/singleton/multi/boundary) x every buffer size 0..Len()+16: Len()==bytes written, header length, strict per-type grammar, ErrShortBuffer with 0 bytes for every shorter buffer, canary beyond Len(); for Writer types Write(Read()) then Read compared modulo exactly the documented normalisations; all 65536 wire codes probed through ExtensionFromID for table coverage; the real pre_shared_key extension through its life (calls while still empty x OmitEmptyPsk x 1-2 identities, then initialised with a genuine TLS 1.3 session): Len()/Read()/header/body/short-buffer agree at each stage. non-trivial/distinct = value variant"
 			c.Assumptions = []string{"value table per extension type is finite (listed in mc/props/c08.go); a type added to ExtensionFromID without a table entry is reported as an infrastructure error, not silently skipped"}
 			runAll(c, c08Scenarios(thorough), 0)
 			c.Gate(c.Total.Counters["short_buffer_reads"] > 1000, "non-vacuity: short-buffer reads %d", c.Total.Counters["short_buffer_reads"])
 			c.Gate(c.Total.Counters["roundtrips"] > 30, "non-vacuity: roundtrips %d", c.Total.Counters["roundtrips"])
 		}})
+}
+
+// c08PSKLifecycle — UtlsPreSharedKeyExtension is the one built-in extension whose encoding changes
+// during its life: empty before a session is loaded, full afterwards. Len() and Read() must agree
+// at every stage, whatever was asked of the object before (Len() on the still-empty extension
+// included: that is what a first build without a session does).
+func c08PSKLifecycle() *explore.Scenario {
+	var (
+		once   sync.Once
+		state  *tls.SessionState
+		ticket []byte
+		gate   string
+	)
+	prepare := func() {
+		cfg := peer.ClientConfig("example.com")
+		cache := tls.NewLRUClientSessionCache(4)
+		cfg.ClientSessionCache = cache
+		if w := peer.Run(cfg, tls.HelloGolang, peer.ServerConfig(), peer.Opts{Echo: true}); !(w.OK() && w.EchoOK) {
+			gate = fmt.Sprintf("handshake failed: %v / %v", w.CErr, w.SErr)
+			return
+		}
+		cs, ok := cache.Get("example.com")
+		if !ok || cs == nil {
+			gate = "no session cached"
+			return
+		}
+		var err error
+		if ticket, state, err = cs.ResumptionState(); err != nil || state == nil {
+			gate = fmt.Sprintf("no resumption state: %v", err)
+		}
+	}
+	return &explore.Scenario{
+		Name: "pre-shared-key-extension-before-and-after-initialisation",
+		Run: func(x *explore.X) (r explore.Result) {
+			once.Do(prepare)
+			if gate != "" {
+				r.Violate("INFRA|c08-psk-material", "%s", gate)
+				return
+			}
+			// calls made on the extension while it is still empty
+			early := x.Choose("calls-while-empty", 4) // 0 none, 1 Len, 2 Len+Read, 3 Len twice
+			omit := x.Choose("omit-empty", 2) == 1
+			nIDs := 1 + x.Choose("identities", 2)
+			e := &tls.UtlsPreSharedKeyExtension{OmitEmptyPsk: omit}
+			what := fmt.Sprintf("calls-while-empty=%d OmitEmptyPsk=%v identities=%d", early, omit, nIDs)
+			if early >= 1 {
+				l0 := e.Len()
+				if early == 3 {
+					l0 = e.Len()
+				}
+				if early == 2 {
+					b := make([]byte, l0+8)
+					if k, _ := e.Read(b); k != l0 {
+						r.Violate("C08|psk-lifecycle|empty-stage", "%s: empty extension: Len() = %d, Read wrote %d", what, l0, k)
+					}
+				}
+			}
+			var ids []tls.PskIdentity
+			for i := 0; i < nIDs; i++ {
+				ids = append(ids, tls.PskIdentity{Label: append([]byte{byte(i)}, ticket...), ObfuscatedTicketAge: uint32(7 + i)})
+			}
+			e.InitializeByUtls(state, rep(1, 32), rep(2, 32), ids)
+			n := e.Len()
+			buf := make([]byte, n+16)
+			k, err := e.Read(buf)
+			r.Nontrivial = true
+			r.Class = what
+			if n <= 4 || k != n || (err != nil && err != io.EOF) {
+				r.Violate("C08|psk-lifecycle|initialised-stage", "%s: initialised extension: Len() = %d, Read wrote %d bytes (err %v)", what, n, k, err)
+				return
+			}
+			if int(buf[2])<<8|int(buf[3]) != n-4 || buf[0] != 0 || buf[1] != 41 {
+				r.Violate("C08|psk-lifecycle|header", "%s: header % x for %d bytes", what, buf[:4], n)
+			}
+			if _, err := wire.ParsePSK(buf[4:n]); err != nil {
+				r.Violate("C08|psk-lifecycle|body", "%s: body does not parse: %v", what, err)
+			}
+			if n > 1 {
+				if k, err := e.Read(make([]byte, n-1)); err != io.ErrShortBuffer || k != 0 {
+					r.Violate("C08|psk-lifecycle|short-buffer", "%s: Read into %d bytes returned (%d, %v)", what, n-1, k, err)
+				}
+			}
+			r.Obs = fmt.Sprintf("len=%d|viol=%d", n, len(r.Viol))
+			return
+		},
+	}
 }
